@@ -108,4 +108,16 @@ PROPS['C12'] = {
     'level_note': 'np.mean/median/std/percentile, scipy.stats.gmean/mode assumed textbook (A-LIB); A-REAL for exp/log/sqrt.',
 }
 
+PROPS['C19'] = {
+    'contracts': ['contracts.histbins:HistBins', 'contracts.io:Range', 'contracts.io:Resolution'],
+    'bounded': True,
+    'level': 'proof',
+    'explanation': 'FCSData.hist_bins for symbolic channel requests (names/positions/lists), bin counts and scales: n+1 edges, strictly '
+                   'increasing, covering the range (linear; log upper limit and positive lower limit), positive log edges, logicle edges = '
+                   'transform of a uniform display grid, default count centres every channel value in its bin (linear), one entry per '
+                   'requested channel depending only on that channel (map-style loop template), unknown scale refused, stored ranges '
+                   'unmodified. Over the reals; the logicle transform enters through its C18 contract (M>0, strictly increasing).',
+    'level_note': 'A-REAL (linspace, exp10/log10), C18 contract assumed for the logicle transform, FCSData accessors by their contracts.',
+}
+
 NOT_APPLICABLE = {}
